@@ -231,6 +231,14 @@ def run(ctx):
             r = trigger_history(ctx, fid)
             ctx.stats["stream:%s:histories" % fid] += 1
             check_history(ctx, r, "finding:" + fid)
+    # scripted family: a PMux whose inputs are related (ancestor / descendant, by rail or by name), then edits of the inputs
+    for _ in range(ctx.n(40, 600)):
+        r = H.Run(G.gen_init(ctx.rng, cfg))
+        if r.init_outcome == "ok":
+            G.mux_family(ctx.rng, r.apply)
+            ctx.stats["stream:mux_family:histories"] += 1
+            shape_stats(ctx, r, "mux_family")
+            check_history(ctx, r, "mux_family")
     # F33: the constructor itself (now a ValueError on both sides)
     for _ in range(ctx.n(2, 10)):
         r = H.Run(G.gen_init(ctx.rng, unsafe=True))
